@@ -97,6 +97,7 @@ func init() {
 	reg(hp+"verifOr", func(x *Exec, fr *frame, args []value) value { return x.tb.Or(args[0].(*Term), args[1].(*Term)) })
 	reg(hp+"verifImplies", func(x *Exec, fr *frame, args []value) value { return x.tb.Implies(args[0].(*Term), args[1].(*Term)) })
 	reg(hp+"verifIteInt", func(x *Exec, fr *frame, args []value) value { return x.tb.Ite(args[0].(*Term), args[1].(*Term), args[2].(*Term)) })
+	reg(hp+"verifIteFloat", func(x *Exec, fr *frame, args []value) value { return x.tb.Ite(args[0].(*Term), args[1].(*Term), args[2].(*Term)) })
 	reg(hp+"verifFloatBits", func(x *Exec, fr *frame, args []value) value { return x.tb.FToBits(args[0].(*Term)) })
 	reg(hp+"verifSymbolic", func(x *Exec, fr *frame, args []value) value { return x.tb.True() })
 	reg(hp+"verifCatch", func(x *Exec, fr *frame, args []value) (res value) {
